@@ -22,7 +22,7 @@ def sha(tt):
         return "raised %s: %s" % (type(e).__name__, str(e)[:200])
 
 
-def static_desc(rng):
+def static_desc(rng, path_graph=False):
     desc = gen_component_font(rng, n=rng.randint(5, 9), kinds=("line", "curve"), anchors=True, max_depth=3,
                               classes=["identity", "scale", "shear", "mirror_x", "general_small"])
     names = [g["name"] for g in desc["glyphs"]]
@@ -40,13 +40,25 @@ def static_desc(rng):
     keys = ["top", "bottom", "ogonek", "cedilla", "ring", "horn"]
     allpairs = [(a, b) for a in range(len(keys)) for b in range(a + 1, len(keys))]
     edges = rng.sample(allpairs, rng.randint(3, 6)) if rng.random() < 0.8 else [(0, 1), (1, 2), (2, 0), (3, 4), (4, 0), (2, 3)]
-    rng.shuffle(keys)
+    if path_graph:
+        # the first font of every run: three 4-chains of mark classes p-q-r-s, each built so that a greedy colouring that
+        # visits the classes in first-seen order meets the chain's ends before its middle (marks A:_p,_q  B:_r,_s  C:_q,_r;
+        # base anchors in the order p, s, q, r): 2 or 3 lookups depending on the iteration order of two-element sets
+        keys = ["top", "bottom", "ogonek", "cedilla", "ring", "horn", "nukta", "dot", "hook", "bar", "tail", "loop"]
+        rng.shuffle(keys)
+        edges = []
+        for c in range(3):
+            p_, q_, r_, s_ = range(4 * c, 4 * c + 4)
+            edges += [(p_, q_), (r_, s_), (q_, r_)]
+    if not path_graph:
+        rng.shuffle(keys)
     for k, (a, b) in enumerate(edges):
         desc["glyphs"].append({"name": "mk%d" % k, "unicodes": [0x300 + k + 16], "width": 0, "contours": [], "components": [],
                                "anchors": [("_" + keys[a], Fr(10 * k), Fr(500)), ("_" + keys[b], Fr(0), Fr(-20 - k)),
                                            (keys[(a + 2) % len(keys)], Fr(5), Fr(700 + k))]})
+    base_order = list(keys) if not path_graph else [keys[4 * c + o] for c in range(3) for o in (0, 3, 1, 2)]
     desc["glyphs"].append({"name": "basemk", "unicodes": [0x65], "width": 500, "contours": [], "components": [],
-                           "anchors": [(kk, Fr(100 + 7 * j), Fr(600 - 50 * j)) for j, kk in enumerate(keys)]})
+                           "anchors": [(kk, Fr(100 + 7 * j), Fr(600 - 50 * j)) for j, kk in enumerate(base_order)]})
     # a contextual anchor: "*<key>" with an identifier that keys a GPOS_Context entry in the glyph's public.objectLibs
     bm = desc["glyphs"][-1]
     bm["anchors"].append(("*" + keys[0], Fr(140), Fr(650), "CTX-ANCHOR-1"))
@@ -76,7 +88,7 @@ def main():
     work = tempfile.mkdtemp(prefix="c08-", dir=os.path.join(HERE, ".work"))
     try:
         for i in range(n):
-            desc = static_desc(rng)
+            desc = static_desc(rng, path_graph=(i == 0))
             for lib in ("ufoLib2", "defcon"):
                 f = build_font(desc, lib)
                 out["static%d/%s/ttf" % (i, lib)] = sha(lambda: ufo2ft.compileTTF(f))
